@@ -25,12 +25,13 @@ type Case struct {
 
 var prop = vlib.Prop[*Case]{
 	ID: "C09",
-	Rule: "case = reachable state (history of 1..8 transactions as in C01) + a subset of the live intents re-submitted verbatim (same name, priority, content, input form) in one transaction; " +
+	Rule: "case = reachable state (history of 1..8 transactions as in C01, over the plain universe or the choice universe) + a subset of the live intents re-submitted verbatim (same name, priority, content, input form) in one transaction; " +
 		"oracle = the recording device asks the same tree for every encoding: proto updates/deletes empty, JSON and JSON_IETF equal {}, XML empty for all 8 option combinations, response Update/Delete empty, INTENDED and CONFIG dumps identical before/after; " +
 		"precondition (else discarded and counted): the running mirror equals the model merge on every path of the re-applied intents; " +
 		"non-trivial = the re-submitted subset contains a fully shadowed or a partly shadowed (mixed) intent; distinct = distinct case JSON",
 	Gen: func(t *rapid.T) *Case {
-		c := &Case{Hist: vlib.GenHistCase(t, vlib.HistGenOpts{Universe: vlib.UniPlainNA, MinSteps: 1, MaxSteps: 8, WithInit: true, AllowOrphan: true})}
+		uni := rapid.SampledFrom([]*vlib.Universe{vlib.UniPlainNA, vlib.UniPlainNA, vlib.UniChoiceNoList}).Draw(t, "universe")
+		c := &Case{Hist: vlib.GenHistCase(t, vlib.HistGenOpts{Universe: uni, MinSteps: 1, MaxSteps: 8, WithInit: true, AllowOrphan: true})}
 		for i := 0; i < vlib.NumOwners; i++ {
 			c.Subset = append(c.Subset, rapid.IntRange(0, 2).Draw(t, "resubmit") != 0)
 		}
